@@ -131,12 +131,12 @@ def _run(case):
         form = (case["prog"] + sum(case["faults"])) % 3
         try:
             if form == 0:
-                async with cache.transaction(mode=mode, timeout=3):
+                async with cache.transaction(mode=mode, timeout=2.5):
                     await body()
             elif form == 1:
-                await cache.transaction(mode=mode, timeout=3)(body)()
+                await cache.transaction(mode=mode, timeout=2.5)(body)()
             else:
-                cache.set_transaction_timeout(3)
+                cache.set_transaction_timeout(2.5)
                 cache.set_transaction_mode(mode)
                 async with cache.transaction():
                     await body()
